@@ -2,7 +2,7 @@
 M-Conv: the odML 1.0 -> 1.1 version converter.
 
   odml/tools/converters/version_converter.py
-      _replace_same_name_entities / _change_entity_name      -> `p1`, `bump`
+      _replace_same_name_entities / _change_entity_name      -> `p1`, `bump`, `nextFree`
       root.set("version", FORMAT_VERSION)                    -> `p2`
       _handle_properties / _handle_value                     -> `p3`, `transformProp`, `valueLoop`,
                                                                 `handleValueElems`, `propCleanup`
@@ -13,7 +13,8 @@ M-Conv: the odML 1.0 -> 1.1 version converter.
       _parse_dict_document / _sections / _properties / _values -> `DDoc.toTree` …
       write_to_file                                          -> `outName`, `writeToFile`
   odml/tools/xmlparser.py
-      from_csv (csv.reader, excel dialect)                   -> `fromCsv`, `csvStep`, `csvRun`
+      to_csv / from_csv (csv module, excel dialect)          -> `Xml.toCsv`, `fromCsv` (the model of
+                                                                C01: Model/XmlCsv.lean, Py/Csv.lean)
       XMLReader.parse_tag (strict)                           -> `readerAccepts`, `readDoc` …
 
 `_convert` is modelled as the pipeline of the same six tree rewrites in the same order.  Each
@@ -25,10 +26,11 @@ elements only directly under properties, and everything else contains none of th
 `uuid.uuid4()` is the parameter `fresh`.  No Mathlib.
 -/
 import OdmlModel.Model.ConvXml
+import OdmlModel.Model.XmlCsv
 import OdmlModel.Generated.FormatTables
 
 namespace Conv
-open Xml
+open Conv.Xml
 
 /-! ## Tables -/
 
@@ -122,11 +124,28 @@ def setCount (n : List Char) (c : Nat) : Counter → Counter
 /-- `"-" + str(k)` -/
 def suffix (n : List Char) (k : Nat) : List Char := n ++ '-' :: Py.natToDigits k
 
-/-- `_change_entity_name`: first occurrence keeps its text, the k-th one gets `-k`. -/
-def bump (m : Counter) (n : List Char) : Counter × List Char :=
+/-- `while "%s-%s" % (name.text, index) in used: index += 1`, started at `index = k`.  The
+    loop leaves after at most `len(used)` rounds (each round finds another element of `used`):
+    `fuel` is that bound, the model is total. -/
+def nextFree (n : List Char) (used : List (List Char)) : Nat → Nat → Nat
+  | 0, k => k
+  | fuel + 1, k => if suffix n k ∈ used then nextFree n used fuel (k + 1) else k
+
+/-- `_change_entity_name`: first occurrence keeps its text, the k-th one gets `-k`, or the next
+    higher number for which the new name is not in `used` (the names of the other siblings:
+    the earlier ones as renamed, the later ones as they are in the source). -/
+def bump (m : Counter) (used : List (List Char)) (n : List Char) : Counter × List Char :=
   match m.lookup n with
   | none => ((n, 1) :: m, n)
-  | some c => (setCount n (c + 1) m, suffix n (c + 1))
+  | some c => (setCount n (c + 1) m, suffix n (nextFree n used used.length (c + 1)))
+
+/-- `sibling.find("name").text` of the Section / Property children that have a name. -/
+def secNames (ks : List Xml) : List (List Char) :=
+  (ks.filter (fun k => k.tag == "section" && (find "name" k.kids).isSome)).map
+    (fun k => findText "name" k.kids)
+def propNames (ks : List Xml) : List (List Char) :=
+  (ks.filter (fun k => k.tag == "property" && (find "name" k.kids).isSome)).map
+    (fun k => findText "name" k.kids)
 
 /-- `name.text = new` on the first `name` child. -/
 def setFirstText (t : String) (new : List Char) : List Xml → List Xml
@@ -139,25 +158,27 @@ def rename (new : List Char) : Xml → Xml
 
 mutual
 /-- Renames inside one skeleton node: the Section children (map `sm`) and, when the node is a
-    Section itself, its Property children (map `pm`, cleared per Section in the code). -/
+    Section itself, its Property children (map `pm`, cleared per Section in the code).
+    `sd` / `pd`: the names the earlier Section / Property siblings have now; the later siblings
+    (`ks`) still have the names of the source. -/
 def p1 : Xml → Xml
-  | .elem t a x ks => .elem t a x (p1Kids (t == "section") [] [] ks)
-def p1Kids (inSec : Bool) (sm pm : Counter) : List Xml → List Xml
+  | .elem t a x ks => .elem t a x (p1Kids (t == "section") [] [] [] [] ks)
+def p1Kids (inSec : Bool) (sm pm : Counter) (sd pd : List (List Char)) : List Xml → List Xml
   | [] => []
   | k :: ks =>
     if k.tag = "section" then
       match find "name" k.kids with
       | some nm =>
-        let r := bump sm nm.text
-        rename r.2 (p1 k) :: p1Kids inSec r.1 pm ks
-      | none => p1 k :: p1Kids inSec sm pm ks          -- the code raises here: see `raises`
+        let r := bump sm (sd ++ secNames ks) nm.text
+        rename r.2 (p1 k) :: p1Kids inSec r.1 pm (sd ++ [r.2]) pd ks
+      | none => p1 k :: p1Kids inSec sm pm sd pd ks    -- the code raises here: see `raises`
     else if k.tag = "property" && inSec then
       match find "name" k.kids with
       | some nm =>
-        let r := bump pm nm.text
-        rename r.2 k :: p1Kids inSec sm r.1 ks
-      | none => k :: p1Kids inSec sm pm ks
-    else k :: p1Kids inSec sm pm ks
+        let r := bump pm (pd ++ propNames ks) nm.text
+        rename r.2 k :: p1Kids inSec sm r.1 sd (pd ++ [r.2]) ks
+      | none => k :: p1Kids inSec sm pm sd pd ks
+    else k :: p1Kids inSec sm pm sd pd ks
 end
 
 mutual
@@ -211,27 +232,30 @@ def valueElems (v : Xml) : List Xml := (descendants v).filter (fun d => d.tag !=
 
 /-- State of the `for value in prop.iter("value")` loop. -/
 structure VState where
-  cur : List Xml          -- children of the Property
-  main : List Char        -- `main_val.text` (`[]` for `None` and for `""`)
-  multi : Bool            -- `multiple_values`
+  cur : List Xml                -- children of the Property
+  vals : List (List Char)       -- `values`: the texts that hold a value, as they are
   log : Log
 
-/-- How one value text is added to `main_val.text`. -/
-def foldText (main : List Char) (multi : Bool) (vtext : List Char) : List Char × Bool :=
-  if vtext ≠ [] then
-    if main ≠ [] then (main ++ ',' :: Py.strip vtext, true) else (Py.strip vtext, multi)
-  else (main, multi)
+/-- `if value.text and value.text.strip(): values.append(value.text)` -/
+def collect (vals : List (List Char)) (vtext : List Char) : List (List Char) :=
+  if vtext ≠ [] ∧ Py.strip vtext ≠ [] then vals ++ [vtext] else vals
 
 def valueLoop (pid : PropId) : List Xml → VState → VState
   | [], s => s
   | v :: vs, s =>
     let r := handleValueElems pid (valueElems v) s.cur s.log
-    let f := foldText s.main s.multi v.text
-    valueLoop pid vs { cur := removeFirst "value" r.1, main := f.1, multi := f.2, log := r.2 }
+    valueLoop pid vs { cur := removeFirst "value" r.1, vals := collect s.vals v.text, log := r.2 }
 
-/-- The text of the single 1.1 `value` element. -/
-def mainText (main : List Char) (multi : Bool) : List Char :=
-  if multi then '[' :: main ++ [']'] else main
+/-- The text of the single 1.1 `value` element: `to_csv(values)`, the encoding of the XML
+    writer (`Model/XmlCsv.lean`; strips every value, csv quoting, brackets).  `enc`
+    (`encoded_values`): the source already has the current format version; the text of a single
+    value element is then the encoded list of a 1.1 Property and is kept (stripped). -/
+def mainText (enc : Bool) (vals : List (List Char)) : List Char :=
+  if enc then
+    match vals with
+    | [v] => Py.strip v
+    | _ => _root_.Xml.toCsv vals
+  else _root_.Xml.toCsv vals
 
 /-- `if elem.tag == "dependency_value": elem.tag = "dependencyvalue"` -/
 def respell (t : String) : String := if t = "dependency_value" then "dependencyvalue" else t
@@ -246,11 +270,11 @@ def propCleanup (pid : PropId) : List Xml → List Xml × Log
     else (r.1, .omittedPropAttr pid (respell k.tag) (pyStr k.text) :: r.2)
 
 /-- One named Property (body of the `for prop in root.iter("property")` loop). -/
-def transformProp (sname stype : List Char) (p : Xml) : Xml × Log :=
+def transformProp (enc : Bool) (sname stype : List Char) (p : Xml) : Xml × Log :=
   let pid : PropId := ⟨sname, stype, pyStr (findText "name" p.kids)⟩
   let vals := p.kids.filter (fun k => k.tag == "value")
-  let s := valueLoop pid vals { cur := p.kids, main := [], multi := false, log := [] }
-  let cur2 := if s.main ≠ [] then s.cur ++ [leaf "value" (mainText s.main s.multi)] else s.cur
+  let s := valueLoop pid vals { cur := p.kids, vals := [], log := [] }
+  let cur2 := if s.vals ≠ [] then s.cur ++ [leaf "value" (mainText enc s.vals)] else s.cur
   let r := propCleanup pid cur2
   (.elem p.tag p.attrs p.text r.1, s.log ++ r.2)
 
@@ -261,21 +285,21 @@ def parentLabel (t : String) (dflt : String) (ks : List Xml) : List Char :=
   | none => dflt.toList
 
 mutual
-def p3 : Xml → Xml × Log
+def p3 (enc : Bool) : Xml → Xml × Log
   | .elem t a x ks =>
-    let r := p3Kids (parentLabel "name" "unnamed" ks) (parentLabel "type" "untyped" ks) ks
+    let r := p3Kids enc (parentLabel "name" "unnamed" ks) (parentLabel "type" "untyped" ks) ks
     (.elem t a x r.1, r.2)
-def p3Kids (sname stype : List Char) : List Xml → List Xml × Log
+def p3Kids (enc : Bool) (sname stype : List Char) : List Xml → List Xml × Log
   | [] => ([], [])
   | k :: ks =>
-    let rest := p3Kids sname stype ks
+    let rest := p3Kids enc sname stype ks
     if k.tag = "property" then
       if (find "name" k.kids).isNone then (rest.1, .unnamedProp :: rest.2)
       else
-        let r := transformProp sname stype k
+        let r := transformProp enc sname stype k
         (r.1 :: rest.1, r.2 ++ rest.2)
     else if k.tag = "section" then
-      let r := p3 k
+      let r := p3 enc k
       (r.1 :: rest.1, r.2 ++ rest.2)
     else (k :: rest.1, rest.2)
 end
@@ -339,7 +363,10 @@ end
 
 /-! ## `_convert` -/
 
-def stage3 (x : Xml) : Xml × Log := p3 (p2 (p1 x))
+/-- `encoded_values = root.get("version") == FORMAT_VERSION` (read before the attribute is set). -/
+def encodedValues (x : Xml) : Bool := x.attrs.lookup "version" == some Gen.Format.formatVersion.toList
+
+def stage3 (x : Xml) : Xml × Log := p3 (encodedValues x) (p2 (p1 x))
 def stage4 (x : Xml) : Xml × Log := p4 (stage3 x).1
 def stage5 (x : Xml) : Xml × Log := p5 (stage4 x).1
 
@@ -381,82 +408,17 @@ def Shape10 (x : Xml) : Bool :=
   x.tag == "odML" && shapeNode x &&
   (descendants x).all (fun d => d.tag != "repository" && d.tag != "include")
 
-/-! ## xmlparser.from_csv: csv.reader with the excel dialect on the text of a value element -/
+/-! ## xmlparser.from_csv
 
-inductive CsvSt where
-  | startRecord | startField | inField | inQuoted | quoteInQuoted | eatCrnl
-  deriving Repr, DecidableEq
+The csv module (reader and writer, excel dialect) is the model shared with C01
+(`Py/Csv.lean`, `Model/XmlCsv.lean`); the stream `csv` of the tie compares it with the real
+`from_csv` on every run. -/
 
-structure Csv where
-  st : CsvSt
-  field : List Char
-  fields : List (List Char)
-  deriving Repr, DecidableEq
-
-/-- `parse_save_field` -/
-def Csv.save (s : Csv) (st : CsvSt) : Csv := { st := st, field := [], fields := s.fields ++ [s.field] }
-/-- `parse_add_char` -/
-def Csv.add (s : Csv) (c : Char) (st : CsvSt) : Csv := { s with st := st, field := s.field ++ [c] }
-
-def isNl (c : Char) : Bool := c == '\n' || c == '\r'
-
-/-- `parse_process_char` for a character of the line; `none` = `csv.Error`. -/
-def csvChar (s : Csv) (c : Char) : Option Csv :=
-  match s.st with
-  | .startRecord | .startField =>
-    if s.st = .startRecord && isNl c then some { s with st := .eatCrnl }
-    else if isNl c then some (s.save .eatCrnl)
-    else if c == '"' then some { s with st := .inQuoted }
-    else if c == ',' then some (s.save .startField)
-    else some (s.add c .inField)
-  | .inField =>
-    if isNl c then some (s.save .eatCrnl)
-    else if c == ',' then some (s.save .startField)
-    else some (s.add c .inField)
-  | .inQuoted =>
-    if c == '"' then some { s with st := .quoteInQuoted } else some (s.add c .inQuoted)
-  | .quoteInQuoted =>
-    if c == '"' then some (s.add c .inQuoted)
-    else if c == ',' then some (s.save .startField)
-    else if isNl c then some (s.save .eatCrnl)
-    else some (s.add c .inField)
-  | .eatCrnl => if isNl c then some s else none
-
-/-- `parse_process_char(EOL)` at the end of a line. -/
-def csvEol (s : Csv) : Csv :=
-  match s.st with
-  | .startRecord => s
-  | .startField | .inField | .quoteInQuoted => s.save .startRecord
-  | .inQuoted => s
-  | .eatCrnl => { s with st := .startRecord }
-
-/-- `list(csv.reader(StringIO(text)))[0]`: lines end at `\n`; every record of the text is
-    parsed (an error in a later record still raises), the first one is returned; at the end of
-    the input an open field is saved.  `first` = the first completed record, if any. -/
-def csvRun : Csv → Option (List (List Char)) → List Char → Option (List (List Char))
-  | s, first, [] =>
-    let s' := csvEol s
-    some (first.getD (if s'.st = .startRecord then s'.fields else s'.fields ++ [s'.field]))
-  | s, first, c :: cs =>
-    match csvChar s c with
-    | none => none
-    | some s1 =>
-      if c == '\n' then
-        let s2 := csvEol s1
-        if s2.st = .startRecord then
-          csvRun { st := .startRecord, field := [], fields := [] } (first.orElse fun _ => some s2.fields) cs
-        else csvRun s2 first cs
-      else csvRun s1 first cs
-
-def csvInit : Csv := { st := .startRecord, field := [], fields := [] }
-
-/-- `from_csv(value_string)`; `none` = an exception of the csv module. -/
+/-- `from_csv(value_string)`; `none` = an exception (of the csv module, or `IndexError`). -/
 def fromCsv (t : List Char) : Option (List (List Char)) :=
-  if t = [] then some []
-  else if t.head? = some '[' && t.getLast? = some ']' then
-    let inner := Py.slice1m1 t
-    if inner = [] then some [] else csvRun csvInit none inner
-  else some [t]
+  match _root_.Xml.fromCsv t with
+  | .ok fs => some fs
+  | .error _ => none
 
 /-! ## What the strict reader makes of a 1.1 tree (arguments of `fmt.create`) -/
 
@@ -585,9 +547,11 @@ def attr10 (t : String) (p : Xml) : List Char :=
     | some x => Py.strip x
     | none => []
 
-/-- Sibling names are made unique by a numeric suffix. -/
-def name10 (prev : List (List Char)) (n : List Char) : List Char :=
-  if prev.count n = 0 then n else suffix n (prev.count n + 1)
+/-- Sibling names are made unique by a numeric suffix: the first sibling with a name keeps it,
+    the k-th one gets `-k` - or the next higher number with which the name is not the name of
+    another sibling (`used`: the earlier siblings as renamed, the later ones as in the source). -/
+def name10 (used prev : List (List Char)) (n : List Char) : List Char :=
+  if prev.count n = 0 then n else suffix n (nextFree n used used.length (prev.count n + 1))
 
 /-- Valid ids are kept, missing or malformed ones replaced. -/
 def id10 (fresh : List Char) (ks : List Xml) : List Char :=
@@ -606,32 +570,35 @@ def propC10 (fresh : List Char) (name : List Char) (p : Xml) : PropC := {
      | none => attr10 "dependencyvalue" p),
   id := id10 fresh p.kids }
 
-/-- Named Properties in order (`prev`: names of the earlier named siblings); unnamed dropped. -/
-def props10 (fresh : List Char) (prev : List (List Char)) : List Xml → List PropC
+/-- Named Properties in order (`prev`: source names of the earlier named siblings, `done`: the
+    names they got); unnamed dropped. -/
+def props10 (fresh : List Char) (done prev : List (List Char)) : List Xml → List PropC
   | [] => []
   | k :: ks =>
     if k.tag = "property" then
       match find "name" k.kids with
-      | some nm => propC10 fresh (name10 prev nm.text) k :: props10 fresh (nm.text :: prev) ks
-      | none => props10 fresh prev ks
-    else props10 fresh prev ks
+      | some nm =>
+        let y := name10 (done ++ propNames ks) prev nm.text
+        propC10 fresh y k :: props10 fresh (done ++ [y]) (nm.text :: prev) ks
+      | none => props10 fresh done prev ks
+    else props10 fresh done prev ks
 
 mutual
 def secC10 (fresh : List Char) (name : List Char) : Xml → SecC
   | .elem _ _ _ ks =>
     .mk (Py.strip name) (Py.strip (findText "type" ks)) (Py.strip (findText "definition" ks))
-      (id10 fresh ks) (props10 fresh [] ks) (secs10 fresh [] ks)
-def secs10 (fresh : List Char) (prev : List (List Char)) : List Xml → List SecC
+      (id10 fresh ks) (props10 fresh [] [] ks) (secs10 fresh [] [] ks)
+def secs10 (fresh : List Char) (done prev : List (List Char)) : List Xml → List SecC
   | [] => []
   | k :: ks =>
     if k.tag = "section" then
-      secC10 fresh (name10 prev (findText "name" k.kids)) k
-        :: secs10 fresh (findText "name" k.kids :: prev) ks
-    else secs10 fresh prev ks
+      let y := name10 (done ++ secNames ks) prev (findText "name" k.kids)
+      secC10 fresh y k :: secs10 fresh (done ++ [y]) (findText "name" k.kids :: prev) ks
+    else secs10 fresh done prev ks
 end
 
 def content10 (fresh : List Char) (x : Xml) : DocC :=
-  { id := id10 fresh x.kids, secs := secs10 fresh [] x.kids }
+  { id := id10 fresh x.kids, secs := secs10 fresh [] [] x.kids }
 
 /-! ### Decidable side conditions used by the theorems -/
 
@@ -654,39 +621,6 @@ def allSecsL : List Xml → List Xml
   | [] => []
   | k :: ks => (if k.tag = "section" then k :: allSecs k else []) ++ allSecsL ks
 end
-
-/-- A value text that survives being joined with bare commas. -/
-def plainText (s : List Char) : Bool :=
-  s.all (fun c => c != ',' && c != '"' && c != '\n' && c != '\r')
-
-def bracketed (s : List Char) : Bool := s.head? = some '[' && s.getLast? = some ']'
-
-/-- `PlainValues` for one Property: no blank-but-non-empty value text, no `,` `"` or line
-    break inside a value, and a single value is not of the form `[...]`. -/
-def plainProp (p : Xml) : Bool :=
-  (valuesOf p).all (fun v => v.text = [] || Py.strip v.text ≠ []) &&
-  (vals10 p).all plainText &&
-  (match vals10 p with
-   | [v] => !bracketed v
-   | _ => true)
-
-def PlainValues (x : Xml) : Bool := (allProps x).all plainProp
-
-/-- The names a group of siblings has (Sections: all; Properties: the named ones). -/
-def secNames (ks : List Xml) : List (List Char) :=
-  (ks.filter (fun k => k.tag == "section")).map (fun k => findText "name" k.kids)
-def propNames (ks : List Xml) : List (List Char) :=
-  (ks.filter (fun k => k.tag == "property" && (find "name" k.kids).isSome)).map
-    (fun k => findText "name" k.kids)
-
-/-- No sibling is literally called `n-k` for a sibling name `n` and a suffix the converter
-    can hand out. -/
-def noSuffixClash (ns : List (List Char)) : Bool :=
-  ns.all (fun n => (List.range (ns.length + 1)).all (fun k => !(ns.contains (suffix n k))))
-
-def NoSuffixClash (x : Xml) : Bool :=
-  noSuffixClash (secNames x.kids) &&
-  (allSecs x).all (fun s => noSuffixClash (secNames s.kids) && noSuffixClash (propNames s.kids))
 
 /-! ### Well-formed odML 1.0 documents (hypothesis of the theorems; decidable) -/
 
@@ -716,10 +650,12 @@ def wfSecOwn (s : Xml) : Bool :=
   s.attrs.isEmpty && uniqueTags s.kids ["name", "type", "id", "definition"] && goodName s.kids &&
   (find "type" s.kids).isSome
 
-/-- Well-formed 1.0 document: of the modelled shape, root attributes at most `version`,
-    one id at most on the root, Sections named and typed, Properties and values as above. -/
+/-- Well-formed 1.0 document: of the modelled shape, root attributes at most `version` (and
+    not the version of the 1.1 format), one id at most on the root, Sections named and typed,
+    Properties and values as above. -/
 def WF10 (x : Xml) : Bool :=
-  Shape10 x && x.attrs.all (fun a => a.1 == "version") && uniqueTags x.kids ["id"] &&
+  Shape10 x && x.attrs.all (fun a => a.1 == "version") && !encodedValues x &&
+  uniqueTags x.kids ["id"] &&
   (allSecs x).all wfSecOwn && (allProps x).all wfProp
 
 /-! ## The JSON / YAML front ends (`_parse_dict_*`) -/
